@@ -98,7 +98,10 @@ def run(ctx):
                 "threenode, reinc = a later endpoint re-using a key, reconn = a (callback) receiver that stays connected while the sender disconnects, reconnects with the same socket id and sends again, lone = no peer, shared = two threads on one key), "
                 "<= 4 send/recv/recv-nonblocking ops between connect and optional disconnect; each is run on the real "
                 "hub under seeded random (pre-emption probability 0.03..0.7) and PCT-style (depth 2..5) line-level "
-                "schedules. A case = (configuration, executed access schedule); non-trivial if at least one message "
+                "schedules; message payloads include the empty string, \"0\" and whitespace. A second stream runs "
+                "ThreadBroadcastChannel endpoints (2-3 nodes all broadcasting, or one broadcast receiver polling 1-2 plain "
+                "peers) under the same scheduler, judged by the broadcast oracle only. "
+                "A case = (configuration, executed access schedule); non-trivial if at least one message "
                 "was sent and the schedule switched threads at least twice; distinct = distinct (configuration, "
                 "access schedule).")
     ctx.trusted += [
@@ -116,7 +119,9 @@ def run(ctx):
         "hub, even while disconnect holds the lock) is not modelled; WeakMethod targets are never garbage collected",
         "no wall-clock timeouts (timeout=None); sleep only yields; __del__-triggered disconnects are replaced by an "
         "explicit disconnect op; reset_socket_hub is not used while threads run",
-        "messages are distinct per configuration; payload content is irrelevant to the hub",
+        "messages are distinct per configuration; the model treats payloads as opaque numbers (the harness maps them "
+        "to strings incl. falsy ones and back)",
+        "broadcast-channel executions have no model counterpart: oracle on the implementation only",
     ]
     drv = hc.Driver(ctx)
     ctx.gen_obligation("extraction of Net/Hub.v and OCaml driver build", drv.ok, (drv.err or "")[-400:])
@@ -164,7 +169,7 @@ def run(ctx):
     n_cfg = 110 if quick else 900
     n_sched = 24 if quick else 60
     max_states = 60000 if quick else 400000
-    t_budget = 65 if quick else 640
+    t_budget = 65 if quick else 580
     t_start = time.time()
     rng = ctx.rng
     for c in range(n_cfg):
